@@ -287,6 +287,11 @@ func (g *fgen) str() string {
 		return sb.String()
 	case 4:
 		g.f("str-long")
+		if r.IntN(3) == 0 {
+			// long and not ASCII: multi-byte characters at every offset modulo any block size
+			unit := []string{"é", "中", "😀", "aé", "ab中", "abc😀"}[r.IntN(6)]
+			return strings.Repeat("p", r.IntN(4)) + strings.Repeat(unit, (1500+r.IntN(9000))/len(unit)) + "\"end"
+		}
 		return strings.Repeat("x", 200+r.IntN(3000)) + "\"end"
 	}
 	b := make([]byte, r.IntN(20))
